@@ -40,6 +40,12 @@ CHECKS = {
     "C10": ("exploration", "exhaustive enumeration of the configuration space; g++ -fsyntax-only of every rendered translation unit against an API shim",
             "format-set x grain model x back-end x shielding tables x thermal: each configuration renders a probe network holding one reaction of every type the combination can produce (combinations refused in Python are recorded) and every src/*.cpp must pass g++ without diagnostics about undeclared or redefined names.",
             "SUNDIALS/Boost are a hand-written shim; a diagnostic about a shim name is a harness error. Only name diagnostics are judged. PYMODULE and CUDA code are not compiled.", "DESIGN.md §2 C10"),
+    "C11": ("exploration", "exhaustive enumeration of process x dust model x species x entry path; compiled EvalRates vs independent transcription of the model formulae",
+            "Every (process, dust model) pair is enumerated for species that differ in mass number, binding energy and yield, through Leeds lines, UCLCHEM lines and the native API, with and without user binding-energy/yield tables and grain species; the rendered EvalRates is compiled by g++ and must equal the transcription of the documented model on (Tgas,Tdust) x (mantle present / absent); the model x process matrix must refuse what a model does not implement; eb_<alias> constants must carry the reacting species' own binding energy.",
+            "Numeric prefactors and coverage factors are those of the implementations the classes cite (Walsh+2015, UCLCHEM v1.3) - listed in the evidence assumptions.", "DESIGN.md §2 C11"),
+    "C12": ("exploration", "bounded-exhaustive enumeration of expression trees of the translator's grammar; Fortran-semantics evaluator vs C-semantics evaluation of the emitted text",
+            "All binary expression trees with <=3 leaves over a 12-leaf alphabet (thorough: + all 4-leaf trees over 4 leaves), printed with minimal and full parentheses, function wrappers, abundance references, near-miss inputs and all 3544 bundled KROME rate expressions are translated by the real KROMEReaction.rateexpr; the emitted C (read by E4 with C typing) must have the value my Fortran evaluator assigns to the source on 5 valuations, and every n(idx_X) must resolve to X's macro.",
+            "Own Fortran evaluator is the reference (precedence, right-assoc **, integer typing). Disagreements are classified by which wrong reading reproduces the C value.", "DESIGN.md §2 C12"),
 }
 
 NOT_YET = {
